@@ -265,7 +265,7 @@ for _c, _p, _q in (("cmd_decrypt_flow", ["C12", "C13", "C05", "C10", "C03", "C04
       bounds="input file argument (present or missing); output path absent | present (0..4 bytes); keyring missing | two entries (a: with or without private key, b: public only); names a | b | z (absent) split over the harness pair; every outcome of password prompt, unlock, checksum, and of the library call (0..2 writes before any of its error kinds or success)", env=CMD_ENV + ["E-CUT: anyhow replaced by a plain-struct stand-in (harness/env/anyhow-min); Stdout/Stdin methods reachable through Box<dyn Write/Read> accept everything"], outside=CMD_OUT + "; stdin/stdout instead of file arguments")
 for _c, _t in (("cmd_pass_decrypt_from_stdin", "quick"), ("cmd_pass_encrypt_from_stdin", "quick"),
                ("cmd_pass_decrypt_stdio", "thorough"), ("cmd_pass_decrypt_to_stdout", "thorough"), ("cmd_pass_encrypt_stdio", "thorough")):
-    H(name=_c, crate="kestrel-cli", mod="commands::verif_cmd", props=["C12", "C13"], tier=_t, est_s=(250 if _t == "quick" else 1500), timeout=(2400 if _t == "quick" else 5400), mem_gb=(10 if _t == "quick" else 30), rlimit_gb=(30 if _t == "quick" else 50), replay="model",
+    H(name=_c, crate="kestrel-cli", mod="commands::verif_cmd", props=["C12", "C13"], tier=_t, est_s=(250 if _t == "quick" else 1500), timeout=(2400 if _t == "quick" else 3000), mem_gb=(10 if _t == "quick" else 30), rlimit_gb=(30 if _t == "quick" else 50), replay="model",
       desc="the same command with stdin in place of the input file and/or stdout in place of -o: outcome is the same function of pre-checks and library result; nothing is created on disk when stdout is the destination and every library write reaches stdout; refused when the stream in question is a terminal; with every pre-check passing the library is called" + (" [stdout as destination ran out of memory at 36 GB in the quick tier: attempt under a larger cap]" if _t != "quick" else ""),
       funcs=["commands::" + _c.replace("cmd_", "").replace("_stdio", "").replace("_to_stdout", "").replace("_from_stdin", ""), "commands::open_input", "commands::open_output"],
       bounds="wiring fixed per harness: stdin->file (quick); stdin->stdout, file->stdout (thorough); tty-ness of both streams unconstrained; otherwise as the _flow harness", env=CMD_ENV + ["E-OS: std::io::stdout()/stdin() return an opaque handle; Stdout accepts every write, Stdin is never read by the library model"], outside=CMD_OUT)
@@ -293,7 +293,7 @@ STR_UNWIND = ["_RNvNtNtCs8xvirJzNMvV_4core5slice6memchr12memchr_naive{CLI}.0:17"
               "_RNvXs_NtNtCs8xvirJzNMvV_4core3str7patternNtB4_12CharSearcherNtB4_8Searcher10next_match{CLI}.0:4",
               "_RNvMs2_Nt{CLI}7keyringNtB5_7Keyring12parse_config.0:8"]
 PARSER_OUT = "arbitrary UTF-8 texts and exhaustive token sequences: std's str::lines/trim/retain/memchr on symbolic text are out of reach of the bit-blasting back end in quick-tier time (DESIGN 6.1)"
-H(name="c17_name_roundtrip", tier="thorough", optional=True, crate="kestrel-cli", mod="keyring::verif_keyring", props=["C17", "C14"], est_s=3000, timeout=5400, mem_gb=16, replay="model",
+H(name="c17_name_roundtrip", tier="thorough", optional=True, crate="kestrel-cli", mod="keyring::verif_keyring", props=["C17", "C14"], est_s=3000, timeout=2400, mem_gb=16, replay="model",
   desc="the [Key] section text key generation writes (transcribed format) for ANY accepted name of 1..3 ASCII bytes without TAB parses back to exactly that name and public key, and is found by get_key",
   funcs=["keyring::Keyring::new", "keyring::Keyring::parse_config", "keyring::Keyring::add_key", "keyring::Keyring::get_key", "keyring::EncodedPk::try_from"],
   bounds="names of 1..3 ASCII bytes (no NUL, LF, TAB; no leading/trailing whitespace)", env=KR_ENV[2:3] + ["E-STR: str::trim, String::retain, <Lines as Iterator>::next, str::split_once(char) replaced by byte-level models exact for ASCII text (std's char-iterator implementations cost ~3 minutes of symbolic execution per input line); guarded by estr_selftest"], outside="names > 3 bytes; non-ASCII names; serialize_key's own formatting (transcribed)")
@@ -302,7 +302,7 @@ H(name="env_const_alias_guard", crate="kestrel-cli", mod="keyring::verif_keyring
 H(name="estr_selftest", crate="kestrel-cli", mod="keyring::verif_keyring", props=["C17"], est_s=30, timeout=900, replay="model",
   desc="E-STR self-test: lines / trim / retain / split_once models called through their std names give the documented results on concrete texts (guards the environment model, not kestrel)", funcs=[], bounds="concrete", env=["E-STR"], outside="-")
 for _n, _l, _est in (("c17_tokens_l4", 4, 3000), ("c17_tokens_l6", 6, 5000)):
-    H(name=_n, crate="kestrel-cli", mod="keyring::verif_keyring", props=["C17", "C09"], auto_props=["C09", "C17"], tier="thorough", optional=True, est_s=_est, timeout=3600, mem_gb=20, rlimit_gb=40, replay="model", cbmc_args=["--max-field-sensitivity-array-size", "128"],
+    H(name=_n, crate="kestrel-cli", mod="keyring::verif_keyring", props=["C17", "C09"], auto_props=["C09", "C17"], tier="thorough", optional=True, est_s=_est, timeout=2400, mem_gb=20, rlimit_gb=40, replay="model", cbmc_args=["--max-field-sensitivity-array-size", "128"],
       desc="Keyring::new on EVERY file of %d lines, each line one of 10 tokens ([Key], Name=a|b, PublicKey=P|Q, malformed PrivateKey, comment, blank, junk, field without value), solver-chosen: accepted iff a token-level state machine of the documented rule accepts; on acceptance the entries are the sections in order; never a panic" % _l,
       funcs=["keyring::Keyring::new", "keyring::Keyring::parse_config", "keyring::Keyring::add_key", "keyring::Keyring::valid_key_name", "keyring::EncodedPk::try_from", "keyring::EncodedSk::try_from"],
       bounds="10^%d files: %d lines x 10 tokens, each padded with blanks to 14 columns (concrete layout, solver-chosen content); shorter files are covered through blank lines" % (_l, _l), env=KR_ENV[2:3] + ["E-STR (see c17_shapes)"], outside=PARSER_OUT + "; well-formed PrivateKey lines (the E-B64 model has one decode length per run)")
@@ -311,7 +311,7 @@ H(name="c17_names_concrete", crate="kestrel-cli", mod="keyring::verif_keyring", 
   funcs=["keyring::Keyring::new", "keyring::Keyring::parse_config", "keyring::Keyring::add_key", "keyring::Keyring::get_key", "keyring::Keyring::valid_key_name"], bounds="twelve concrete one-section texts (concrete inputs: the parser is executed by the model checker, not solved for)", env=KR_ENV[2:3] + ["E-STR (see c17_shapes)"], outside="all other names (the solver-chosen variant c17_name_roundtrip is thorough-tier)")
 H(name="c17_name_roundtrip_tab", crate="kestrel-cli", mod="keyring::verif_keyring", props=["C17"], est_s=20, timeout=1800, mem_gb=8, replay="model",
   desc="KNOWN FINDING F4: the same round trip for the concrete name a<TAB>b (expected to fail: the parser deletes every TAB)", funcs=["keyring::Keyring::parse_config"], bounds="one concrete text", env=KR_ENV[2:3] + ["E-STR: str::trim, String::retain, <Lines as Iterator>::next, str::split_once(char) replaced by byte-level models exact for ASCII text (std's char-iterator implementations cost ~3 minutes of symbolic execution per input line); guarded by estr_selftest"], outside="")
-H(name="c17_sections", tier="thorough", optional=True, crate="kestrel-cli", mod="keyring::verif_keyring", props=["C17"], est_s=3000, timeout=5400, mem_gb=16, replay="model",
+H(name="c17_sections", tier="thorough", optional=True, crate="kestrel-cli", mod="keyring::verif_keyring", props=["C17"], est_s=3000, timeout=2400, mem_gb=16, replay="model",
   desc="Keyring::new on two sections with symbolic one-byte names and symbolic key choice: accepted iff names differ and keys differ; entries in order",
   funcs=["keyring::Keyring::new", "keyring::Keyring::parse_config", "keyring::Keyring::add_key"], bounds="names in a..c x a..c, same/different public key", env=KR_ENV[2:3] + ["E-STR: str::trim, String::retain, <Lines as Iterator>::next, str::split_once(char) replaced by byte-level models exact for ASCII text (std's char-iterator implementations cost ~3 minutes of symbolic execution per input line); guarded by estr_selftest"], outside=PARSER_OUT)
 H(name="c17_shapes", crate="kestrel-cli", mod="keyring::verif_keyring", props=["C17", "C09"], auto_props=["C09", "C17"], est_s=200, timeout=1800, mem_gb=8, replay="model",
